@@ -3,3 +3,6 @@
 package main
 
 func installServeHooks() {}
+
+func setSaveStages(dir, base string) {}
+func controlLine(line string)        {}
